@@ -10,7 +10,7 @@ import (
 	"verif/harness/spec"
 )
 
-var c19Patterns = []string{"silent", "traffic-then-silent", "ping", "publish-only", "trickle", "silent-mid-packet", "silent-after-header-byte"}
+var c19Patterns = []string{"silent", "traffic-then-silent", "ping", "publish-only", "trickle", "silent-mid-packet", "silent-after-header-byte", "uneven"}
 var c19Fractions = []float64{0.25, 0.5, 0.9, 0.99}
 
 func c19Run(t *testing.T, K int, pattern string, frac float64, idx int) {
@@ -51,13 +51,22 @@ func c19Run(t *testing.T, K int, pattern string, frac float64, idx int) {
 		// ---- active phase
 		rounds := 0
 		switch pattern {
-		case "ping", "publish-only":
+		case "ping", "publish-only", "uneven":
 			rounds = 50
 		case "traffic-then-silent":
 			rounds = 8
 		}
 		pings := 0
+		ur := spec.NewRand(uint64(K)*1000 + uint64(frac*1000))
 		for i := 0; i < rounds; i++ {
+			if pattern == "uneven" {
+				// irregular pacing, every gap shorter than K: a short gap (frac x K) followed by a long one (0.8..0.99 K)
+				if i%2 == 0 {
+					interval = time.Duration(float64(kd) * frac)
+				} else {
+					interval = time.Duration(float64(kd) * (0.80 + 0.19*float64(ur.Intn(100))/100))
+				}
+			}
 			time.Sleep(interval)
 			if c.Closed() {
 				fail("c19:active-dropped", fmt.Sprintf("client sending every %v (keep-alive %ds) was disconnected after %d intervals", interval, K, i))
@@ -100,7 +109,7 @@ func c19Run(t *testing.T, K int, pattern string, frac float64, idx int) {
 			fail("c19:pingresp", fmt.Sprintf("%d PINGREQ sent, %d PINGRESP received", pings, got))
 			return
 		}
-		if pattern == "ping" || pattern == "publish-only" {
+		if pattern == "ping" || pattern == "publish-only" || pattern == "uneven" {
 			if c.Closed() {
 				fail("c19:active-dropped", "disconnected at the end of the active phase")
 				return
@@ -165,6 +174,9 @@ func TestC19(t *testing.T) {
 			}
 			if p == "trickle" {
 				fr = []float64{0.9}
+			}
+			if p == "uneven" {
+				fr = []float64{0.05, 0.2, 0.35, 0.39, 0.5}
 			}
 			for _, f := range fr {
 				i++
